@@ -64,6 +64,9 @@ def _draw_spec(draw, name, m, rng):
         spec["weights"] = (rng.standard_normal(m) * 10.0 ** rng.uniform(-1, 1)).tolist()
     if name == "GradDrop" and draw(st.booleans()):
         spec["leak"] = rng.uniform(0, 1, size=m).tolist()
+        if draw(st.booleans()):
+            for i in rng.choice(m, size=int(rng.integers(1, m + 1)), replace=False):
+                spec["leak"][int(i)] = float(rng.integers(0, 2))
     if (name in ("UPGrad", "DualProj") and "pref" in spec) or (name == "GradDrop" and "leak" in spec):
         # these accept a configured vector of the other floating dtype; the result must still have the matrix dtype
         spec["vec_other_dtype"] = draw(st.sampled_from([True, False, False]))
